@@ -127,7 +127,114 @@ func c12concScenarios(r *ev.Run, dir string) []conc.Scenario {
 			}
 		}
 	}
+	// "restart": a chunk of checkpoint A is still being imported while the driver gives up on A (abort) and
+	// starts restoring checkpoint B of the same version; B must restore completely and exactly
+	trees := c12concTrees()
+	srcA, errA := c12MakeSourceTyped(trees[0].Contents, dir, node.RootTypeIO) // the version's IO root first (as the sync worker does), then its state root
+	srcB, errB := c12MakeSource(trees[1].Contents, dir)
+	if errA == nil && errB == nil {
+		for _, n := range []int{2, 3} {
+			cpA, cpB := c12concCheckpoint(srcA, 2), c12concCheckpoint(srcB, n)
+			if cpA == nil || cpB == nil {
+				continue
+			}
+			for _, be := range kv.Backends {
+				for stale := 0; stale < 2; stale++ {
+					be, cpA, cpB, stale, n := be, cpA, cpB, stale, n
+					scs = append(scs, conc.Scenario{
+						Name:  fmt.Sprintf("c12 restart %s: chunk %d of an aborted restore of the IO root in flight, then a %d-chunk restore of the state root", be, stale, n),
+						Bound: bound,
+						New:   func() (*conc.Instance, error) { return c12restartInstance(trees[1], be, cpA, cpB, stale) },
+					})
+				}
+			}
+		}
+	}
+	if errA == nil {
+		srcA.ndb.Close()
+	}
+	if errB == nil {
+		srcB.ndb.Close()
+	}
 	return scs
+}
+
+func c12restartInstance(trB c12tree, backend string, cpA, cpB *c12cp, stale int) (*conc.Instance, error) {
+	ndb, err := kv.OpenDB(backend, "")
+	if err != nil {
+		return nil, err
+	}
+	rs, _ := checkpoint.NewRestorer(ndb)
+	if err := ndb.StartMultipartInsert(cpA.meta.Root.Version); err != nil {
+		ndb.Close()
+		return nil, err
+	}
+	if err := rs.StartRestore(kv.Ctx, cpA.meta); err != nil {
+		ndb.Close()
+		return nil, err
+	}
+	var mu sync.Mutex
+	var problems []string
+	note := func(f string, a ...any) {
+		mu.Lock()
+		problems = append(problems, fmt.Sprintf(f, a...))
+		mu.Unlock()
+	}
+	staleDone := false
+	var bDone []bool
+	inst := &conc.Instance{Close: func() { ndb.Close() }}
+	inst.Bodies = append(inst.Bodies, func() {
+		done, _ := rs.RestoreChunk(kv.Ctx, uint64(stale), bytes.NewReader(cpA.chunks[stale]))
+		mu.Lock()
+		staleDone = done
+		mu.Unlock()
+	}, func() {
+		_ = rs.AbortRestore(kv.Ctx)
+		if err := ndb.AbortMultipartInsert(); err != nil {
+			note("AbortMultipartInsert failed: %v", err)
+			return
+		}
+		if err := ndb.StartMultipartInsert(cpB.meta.Root.Version); err != nil {
+			note("StartMultipartInsert for the second restore failed: %v", err)
+			return
+		}
+		if err := rs.StartRestore(kv.Ctx, cpB.meta); err != nil {
+			note("StartRestore of the second checkpoint failed: %v", err)
+			return
+		}
+		for i := range cpB.chunks {
+			done, err := rs.RestoreChunk(kv.Ctx, uint64(i), bytes.NewReader(cpB.chunks[i]))
+			if err != nil {
+				note("genuine chunk %d of the second restore was rejected: %v", i, err)
+				return
+			}
+			mu.Lock()
+			bDone = append(bDone, done)
+			mu.Unlock()
+		}
+	})
+	inst.Outcome = func() string { return fmt.Sprintf("stale=%v b=%v p=%d", staleDone, bDone, len(problems)) }
+	inst.Final = func(_ *sched.Result) string {
+		if len(problems) > 0 {
+			return problems[0]
+		}
+		if staleDone {
+			return "the chunk of the aborted restore was told that a restore is complete"
+		}
+		for i, d := range bDone {
+			if d != (i == len(cpB.chunks)-1) {
+				return fmt.Sprintf("second restore of %d chunks fed in order: completion flags %v", len(cpB.chunks), bDone)
+			}
+		}
+		if len(bDone) != len(cpB.chunks) {
+			return "harness: second restore incomplete"
+		}
+		if err := ndb.Finalize([]node.Root{cpB.meta.Root}); err != nil {
+			return "Finalize after the second restore failed: " + err.Error()
+		}
+		return readBack(ndb, cpB.meta.Root, trB.Contents)
+	}
+	return inst, nil
 }
 
 type c12concResult struct {
